@@ -7,6 +7,12 @@ var commonAssumptions = []string{
 }
 
 var props = map[string]propMeta{
+	"C02": {Level: "model_checking", QuickS: 120, ThoroughS: 1200, NeedBin: true,
+		Rule: "5 books (flat, empty recipe, nested, element also logged directly, mixed sign) x every first day of <= 3 entries over 4 foods x 5 quantities (x optional second day, earlier or repeated date) x {default, left-aligned, old register, summary}; every output is parsed and compared with the reference register computed in exact rationals. A case (book, log) is non-trivial when a food repeats within a day or the log has more than one day.",
+		Assumptions: commonAssumptions},
+	"C01": {Level: "model_checking", QuickS: 90, ThoroughS: 1200,
+		Rule: "all acyclic books of k recipes (ordered ingredient lists of length <= L over later recipes and 2 leaves, repetitions allowed, coefficients from a dyadic alphabet) x 2 namings (topological = alphabetical / reversed) x both resolve entry points x every visiting order of every ranged map; oracle = exact big.Rat path sums. A case is non-trivial when at least one recipe references another recipe.",
+		Assumptions: commonAssumptions},
 	"C11": {Level: "model_checking", QuickS: 60, ThoroughS: 900,
 		Rule: "all directed ingredient graphs on k recipes + 1 leaf (every subset of names as ingredient set, self-reference and cycles included) x depth limit N x both resolve entry points x every visiting order of the recipe map (explorer-chosen permutation); plus chains of every length around N under all/rotated orders. A case (graph,N,api) is non-trivial when it has at least one recipe-to-recipe reference.",
 		Assumptions: commonAssumptions},
